@@ -156,7 +156,7 @@ function focusNodes(r, fs_) {
       kids.push({ t: 'el', tag: 'q', attrs: [{ fam: 'plain', name: 'w', value: M.ev(X.id('v')) }], slotVals: r.bool(0.7) ? [{ name: 'v' }, { name: 'i' }] : [], children: [{ t: 'text', v: M.mv('', X.id('v'), '-', X.id('i'), '-', X.id(r.pick(['a', 's', 'flag']))) }] })
       const defs = (fs_.files[fs_.main].defs || []).map((d) => d.name)
       if (defs.length && r.bool(0.3)) kids.push({ t: 'tref', is: M.sv(r.pick(defs)), data: X.obj([{ k: 'kv', name: 'a', e: X.id('a') }]) })
-      out.push({ t: 'el', tag: 'd-s', attrs: [{ fam: 'plain', name: 'list', value: M.ev(r.pick([() => X.id('list'), () => items, () => X.bin('||', items, X.id('list'))])()) }], children: r.shuffle(kids) })
+      out.push({ t: 'el', tag: r.pick(['d-s', 'd-k']), attrs: [{ fam: 'plain', name: 'list', value: M.ev(r.pick([() => X.id('list'), () => items, () => X.bin('||', items, X.id('list'))])()) }], children: r.shuffle(kids) })
     } else {
       const defs = (fs_.files[fs_.main].defs || []).map((d) => d.name)
       if (defs.length) out.push({ t: 'tref', is: M.sv(r.pick(defs)), data: X.obj([{ k: 'kv', name: 'a', e: X.bin('&&', X.id('obj'), X.mem(X.id('obj'), 'y')) }, { k: 'kv', name: 'b', e: X.idx(items, X.num('0')) }, { k: 'spread', e: X.bin('||', X.id('ob'), X.obj([])) }]) })
@@ -190,7 +190,7 @@ export function makeCases(ctx, n, fixed = null) {
     const mode = r.bool(0.5) ? 'virtualTree' : 'default'
     // a key can only be removed with an exact tree when the tree is handed over directly
     // (dynamic-slot content is created and removed by the child's own update cycle: only real setData histories there)
-    const hasDynSlots = focus && fs_.files[fs_.main].children.some((n) => n.t === 'el' && n.tag === 'd-s')
+    const hasDynSlots = focus && fs_.files[fs_.main].children.some((n) => n.t === 'el' && (n.tag === 'd-s' || n.tag === 'd-k'))
     const synthetic = hasDynSlots ? null : ops.some((o) => o.op === 'key') ? r.pick(['exact', 'exact', 'coarse', null]) : r.bool(0.25) ? r.pick(['exact', 'coarse', 'true']) : null
     cases.push({ id: cases.length, caseSeed, genOpts, fs: fs_, sources, dataSeed, ops, mode, synthetic })
   }
